@@ -772,6 +772,9 @@ func genStates(path string, quick bool, want map[string]bool, emit func(job)) {
 				// continuations "as if the byte had been accepted into some other grammar position" (a wrong table cell
 				// typically faults only when a plausible rest of the document follows), then the state's closers
 				for _, mid := range confusions {
+					if quick && l == "sen" && !inAlpha[x] {
+						continue // SEN calls cost ~20x a JSON call: structural bytes only in the quick tier
+					}
 					emit(job{b: cat(w, []byte{x}, []byte(mid), cl), cls: "step+conf:" + s.Pc, lang: l, light: l == "sen"})
 				}
 				conts(alphaJSON, depth, func(c []byte) {
@@ -1060,7 +1063,7 @@ func genSen(r *rand.Rand, quick bool, emit func(job)) {
 			}
 			for _, x := range alphaSEN {
 				conts(alphaSEN, k, func(c []byte) {
-					emit(job{b: cat(doc[:p], []byte{x}, c), cls: "sen-prefix-step", lang: "sen", light: len(c) > 0})
+					emit(job{b: cat(doc[:p], []byte{x}, c), cls: "sen-prefix-step", lang: "sen", light: len(c) > 0 || (quick && si >= 8)})
 				})
 			}
 		}
